@@ -13,7 +13,7 @@ PROPS = {}
 
 RULES["C12"] = ("cases: Threshold(s) for s drawn from {1,2,3,20,50,1000, tie values, [1,2000], [1,10^6]} and, in both tiers, every s in 1..10^6 (exhaustive sweep) "
                 "and ThresholdQ(list) for lists of 1..2000 values mixing uniform [0,1], the exact doubles 0,0.1,...,1.0 and their "
-                "Nextafter neighbours, clustered values, each also evaluated in a drawn permutation. non-trivial: s whose real "
+                "Nextafter neighbours, clustered values, and (one case in sixteen, plus a deterministic grid) long lists of 2001..10^6 values of which a fraction 0/0.001/0.005/0.02/0.05/0.3/1 falls into one drawn interval; each also evaluated in a drawn permutation. non-trivial: s whose real "
                 "threshold lies within 0.01 of an integer (or s in {20,50,1000}); a list containing a value exactly on an interval "
                 "edge or with reference uniformity P strictly inside (1e-9,1-1e-9). distinct: hash of the case JSON.")
 PROPS["C12"] = {
@@ -124,7 +124,7 @@ PROPS["C19"] = {
 _STREAM = ("streams are composed by rapid from a committed pool of classified PRNG samples (search guidance only; every oracle recomputes all results on the current tree): "
            "targets {pass count of a drawn item at allowed-1..allowed+2 failing samples, ten-bin Q histogram of a drawn item drawn from all partitions of s with uniformity P in [1e-6,1e-2] "
            "in a drawn bin order, two items failing, 'half' (a two-sided item whose Q-values all lie in one half of [0,1]: the Q histogram fails while the P histogram would pass), 'mixed' (item i fails only the uniformity criterion with a two-bin histogram while a later item j fails only the pass count), 'one-bad' (all-pass samples plus exactly the tolerated number of stuck-at samples), random pool samples, all-pass samples, (periodic) 20 degree-63 LFSR samples that only the excluded items 13-15 reject}, samples shuffled, "
-           "0 / 1 / sampleBytes-1 / sampleBytes / 3*sampleBytes trailing bytes (zero or random); an eighth of the streams end exactly after the last sample with io.EOF returned together with the final bytes, an eighth come from a standard *bytes.Reader / *os.File positioned behind a header of zeros. ")
+           "0 / 1 / sampleBytes-1 / sampleBytes / 3*sampleBytes trailing bytes (zero or random); an eighth of the streams end exactly after the last sample with io.EOF returned together with the final bytes, an eighth come from a standard *bytes.Reader / *os.File positioned behind a header of zeros. History: a third of the cases (C07, C08, C10, C14) are preceded, in the same process, by another detection - the same workflow or any of period / poweron / factory, sequential or parallel, or the single-shot one - on a source that ran dry after 1..49999 bytes. ")
 RULES["C07"] = (_STREAM + "oracle: independent decision model (exact-integer threshold, own binning, big.Float igamc) over the registry runners' results on each sample: verdict equal, nil error iff true, "
                 "error names an item violating a criterion; (periodic) same outcome with and without the trailing bytes. non-trivial: some item's pass count in {t-1,t} or some item's uniformity P in [1e-5,1e-3]. "
                 "distinct: hash of the case JSON.")
@@ -254,7 +254,7 @@ PROPS["C17"] = {
 }
 
 RULES["C18"] = ("a plan of 2..64 goroutines, each assigned a drawn test (the fifteen registry tests through runner / byte entry point / bit entry point with a documented parameter, Round12, Round15) and one of 1..4 shared inputs "
-                "(1200..4000 bytes and their bit expansions; uniform, biased, markov, periodic, sparse), GOMAXPROCS in {2,4,16}. oracle: every task computed alone first, then once more (determinism, bit-identical), then all released from a barrier: "
+                "(1200..4000 bytes and their bit expansions; uniform, biased, markov, periodic, sparse; one case in four 16..60 bytes; one case in six 9000..130000 bytes with the cheaper tests only), GOMAXPROCS in {2,4,16}. oracle: every task computed alone first, then once more (determinism, bit-identical), then all released from a barrier: "
                 "each concurrent result bit-identical to the solitary one, every input slice equal to its snapshot afterwards; the same check also runs in a -race binary (a race report is a violation). Deterministic shards call every test x documented parameter x entry point 70000 times in a row (1.2 million thorough; more than a 16-bit / 20-bit counter holds), alternating between two inputs of different length: every result bit-identical to the first one for that input. One case in four uses the shortest admissible inputs (128..480 bits). "
                 "non-trivial: at least two goroutines share an input and at least two distinct tests run. distinct: hash of the case JSON.")
 PROPS["C18"] = {
